@@ -5,14 +5,15 @@ VIOLATION; applies each benign variant and requires every check to stay silent.
 
   selftest.py [--only <substring>] [--suite] [--benign-only] [--mutants-only] [--keep]
 
-Not part of any registered check. Scratch data lives under /tmp/vmon-mut and is removed at the end.
+Not part of any registered check. Scratch data lives under /tmp/vmon-mut-<pid> and is removed at the end.
 """
 import json, os, subprocess, sys, time, shutil
 VERIF = os.path.dirname(os.path.abspath(__file__))
 sys.path.insert(0, os.path.join(VERIF, "mutants"))
 from mutants import MUTANTS, BENIGN
 
-WT = "/tmp/vmon-mut/wt"
+ROOT = "/tmp/vmon-mut-%d" % os.getpid()   # one scratch root per run, so two runs never share a tree
+WT = ROOT + "/wt"
 
 def sh(cmd, cwd=None, env=None, timeout=7200):
     p = subprocess.run(cmd, shell=True, cwd=cwd, env=env, stdout=subprocess.PIPE, stderr=subprocess.STDOUT, text=True, timeout=timeout)
@@ -30,7 +31,7 @@ def apply(m):
     return None
 
 def run_check(prop, tier="quick"):
-    env = dict(os.environ, VMON_REPO=WT, VMON_NO_SANITIZERS="1", VMON_TARGET="/tmp/vmon-mut/target")
+    env = dict(os.environ, VMON_REPO=WT, VMON_NO_SANITIZERS="1", VMON_TARGET=ROOT + "/target")
     env.setdefault("VERIF_SEED", "0")
     rc, o = sh("./check %s %s 2>/dev/null" % (prop, tier), cwd=VERIF, env=env)
     sig = ""
@@ -47,7 +48,7 @@ def run_check(prop, tier="quick"):
 def main():
     only = sys.argv[sys.argv.index("--only") + 1] if "--only" in sys.argv else None
     suite = "--suite" in sys.argv
-    os.makedirs("/tmp/vmon-mut", exist_ok=True)
+    os.makedirs(ROOT, exist_ok=True)
     sh("git -C /repo worktree remove --force %s" % WT)
     rc, o = sh("git -C /repo worktree add -q --detach %s HEAD" % WT)
     if rc != 0:
@@ -65,7 +66,7 @@ def main():
                     results["mutants"][m["id"]] = {"error": err}; continue
                 r = {"prop": m["prop"], "needs": m["needs"]}
                 if suite:
-                    rc, o = sh("timeout -k 5 240 cargo nextest run --workspace --no-fail-fast --offline --test-threads 8 2>&1 | tail -3 | cut -c1-150", cwd=WT, env=dict(os.environ, CARGO_TARGET_DIR="/tmp/vmon-mut/suite-target"))
+                    rc, o = sh("timeout -k 5 240 cargo nextest run --workspace --no-fail-fast --offline --test-threads 8 2>&1 | tail -3 | cut -c1-150", cwd=WT, env=dict(os.environ, CARGO_TARGET_DIR=ROOT + "/suite-target"))
                     r["baseline_suite"] = (o.strip().splitlines()[-1] if o.strip() else "?") if "Summary" in o else "suite did not finish within 240 s (hang) or failed to build: " + o.strip()[-120:]
                 t0 = time.time()
                 rc, sig, o = run_check(m["prop"])
@@ -95,7 +96,7 @@ def main():
         sh("git checkout -q -- .", cwd=WT)
         if "--keep" not in sys.argv:
             sh("git -C /repo worktree remove --force %s" % WT)
-            shutil.rmtree("/tmp/vmon-mut", ignore_errors=True)
+            shutil.rmtree(ROOT, ignore_errors=True)
     out = os.path.join("/verif", "mutants", "RESULTS.json")  # live /verif, also when run from a vp snapshot
     prev = {}
     if os.path.exists(out) and only:
